@@ -7,9 +7,11 @@ import (
 	"github.com/glebziz/fs_db/internal/model"
 	"github.com/glebziz/fs_db/internal/model/core"
 	"github.com/glebziz/fs_db/internal/model/sequence"
+	"github.com/glebziz/fs_db/internal/verifhook"
 )
 
 func (u *UseCase) Store(ctx context.Context, f model.File) error {
+	verifhook.At("core.store")
 	tx, ok := u.txStore.Get(f.TxId)
 	if !ok {
 		tx = u.txPool.Acquire()
